@@ -77,6 +77,10 @@ class Exec {
   std::map<int, int64_t> fd_surplus;          // sender that attached more descriptors than announced -> when
   std::vector<size_t> fd_checked;             // per client: got[] index up to which descriptors were compared
   void check_fds(int ci);
+  // ---- C19: activation
+  size_t procs_seen = 0;
+  std::map<std::string, int> activation_pid;   // name -> pid of the process started for its current / last activation
+  void check_activation_starts();
   bool tainted = false;            // a listed finding made the model lose track: no further comparisons in this run
   bw::BusLimits lim_cfg;
   void sync_names();
